@@ -36,6 +36,9 @@ META = {
 }
 
 TICK = 0.25
+# value tables of the random histories; Trace_LinkedFloatEnum looks the same names up in Tab() of the specification
+TABLES = {'asc3': {0: 1, 1: 3, 2: 7}, 'desc3': {0: 7, 1: 3, 2: 1}, 'gap3': {1: 5, 2: 1, 9: 3},
+          'two': {0: 2, 1: 6}, 'dup3': {0: 4, 1: 4, 2: 6}, 'mix4': {0: 4, 1: 1, 2: 7, 5: 2}}
 SUBS = ('LinkedStruct', 'LinkedFloatEnum', 'LinkedLimits', 'LinkedControl')
 
 
@@ -548,14 +551,10 @@ def _replay_group(item):
     for j, (a, via) in enumerate(zip(actions, vias)):
         probe = fe and (variant % 2 == 0 or j == len(actions) - 1)
         got = w.step(a, via, probe) if fe else w.step(a, via)
-        wanted = []
-        for k in alive:
-            x = cls.expect(a, outcomes[k][j], probe) if fe else cls.expect(a, outcomes[k][j])
-            if x not in wanted:
-                wanted.append(x)
-        alive = [k for k in alive
-                 if (cls.expect(a, outcomes[k][j], probe) if fe else cls.expect(a, outcomes[k][j])) == got]
+        wanted = [cls.expect(a, outcomes[k][j], probe) if fe else cls.expect(a, outcomes[k][j]) for k in alive]
+        alive = [k for k, x in zip(alive, wanted) if x == got]
         if not alive:
+            wanted = [x for n, x in enumerate(wanted) if x not in wanted[:n]]
             return {'step': j + 1, 'action': a, 'via': via, 'expected': wanted, 'observed': got, 'vias': vias,
                     'variant': variant, 'symptom': w.symptom(a, got, prev)}
         prev = got
@@ -629,8 +628,7 @@ def _random_trace(arg):
                 return {'act': 'am', 'm': rnd.choice(mem), 'v': rnd.randint(1, 9)}
             return {'act': 'as', 'v': sv}
     elif sub == 'LinkedFloatEnum':
-        tables = {'asc3': {0: 1, 1: 3, 2: 7}, 'desc3': {0: 7, 1: 3, 2: 1}, 'gap3': {1: 5, 2: 1, 9: 3},
-                  'two': {0: 2, 1: 6}, 'dup3': {0: 4, 1: 4, 2: 6}, 'mix4': {0: 4, 1: 1, 2: 7, 5: 2}}
+        tables = TABLES
         tab = rnd.choice(sorted(tables))
         shape = rnd.choice(('rw', 'w'))
         # a module whose index can only be written and has no configured value is served exactly as constructed
@@ -716,9 +714,7 @@ def _trace_signature(sub, trace, l):
     a = dict(ev, act=ev.get('ev'))
     if sub == 'LinkedFloatEnum':
         w = object.__new__(FloatEnumWorld)
-        tables = {'asc3': {0: 1, 1: 3, 2: 7}, 'desc3': {0: 7, 1: 3, 2: 1}, 'gap3': {1: 5, 2: 1, 9: 3},
-                  'two': {0: 2, 1: 6}, 'dup3': {0: 4, 1: 4, 2: 6}, 'mix4': {0: 4, 1: 1, 2: 7, 5: 2}}
-        w.table = tables[init['tab']]
+        w.table = TABLES[init['tab']]
         sym = w.symptom(a, ev, prev)
     else:
         sym = cls.symptom(a, ev, prev)
@@ -738,52 +734,55 @@ def run(chk):
                 'thorough, per layout) executed once on real modules, state compared after every step with the set of '
                 'outcomes TLC printed; plus seeded random histories validated by Trace_*. A case is distinct by '
                 '(layout, action sequence); non-trivial = contains at least one state-changing operation')
-    pool = ThreadPoolExecutor(8)
+    pool = ThreadPoolExecutor(12)
     t0 = time.time()
     timing = chk.notes.setdefault('timing_s', {})
     list(pool.map(sany, [pre + m for m in SUBS for pre in ('', 'Gen_', 'Trace_')]))
     timing['sany'] = round(time.time() - t0, 1)
     # 1 design check + 2 behaviour emission, all TLC runs side by side
     mcs = {m: pool.submit(model_check, m, f'MC_{m}_{tier}.cfg', timeout=600, workers=2) for m in SUBS}
-    gens = {m: pool.submit(run_tlc, 'Gen_' + m, f'Gen_{m}_{tier}.cfg', workers=1, timeout=900,
-                           heap='3g' if quick else '6g') for m in SUBS}
-    for m in SUBS:
-        chk.add_tlc(mcs[m].result())
-    items = []
-    for m in SUBS:
-        r = gens[m].result()
-        if r.violated or not r.ok:
-            raise MachineryError(f'behaviour emission Gen_{m} failed: {r.violated or r.error}\n{r.out[-2000:]}')
-        chk.add_tlc(r)
-        behs = _parse_behaviours(r)
-        if not behs:
-            raise MachineryError(f'Gen_{m} printed no behaviour')
-        g = _groups(m, behs, chk.seed)
-        chk.notes.setdefault('behaviours', {})[m] = {'tlc_behaviours': len(behs), 'action_sequences': len(g)}
-        chk.sample({m: behs[len(behs) // 2]})
-        items += g
-    timing['mc+gen'] = round(time.time() - t0, 1)
-    # 3 random histories are recorded while nothing else needs the cores
+    cfgs = [(m, f'Gen_{m}_{c}.cfg') for c in (('quick',) if quick else ('thorough', 'thorough_wide')) for m in SUBS]
+    gens = [(m, cfg, pool.submit(run_tlc, 'Gen_' + m, cfg, workers=1, timeout=1100, heap='3g' if quick else '5g'))
+            for m, cfg in cfgs]
+    # 3 random histories are recorded while the JVMs work
     ntr, ln = (150, 30) if quick else (1500, 40)
     targs = [(m, chk.seed * 7919 + i * 4 + k, ln) for k, m in enumerate(SUBS) for i in range(ntr)]
-    _ITEMS[:] = items
-    res = pool_map(_replay_index, list(range(len(items))))
-    for item, bad in zip(items, res):
-        sub, variant, _, init, actions, _ = item
-        chk.impl_traces += 1
-        chk.case(json.dumps([sub, init, actions], sort_keys=True), True)
-        if bad:
-            sig = {'module': sub, 'op': bad['action']['act'], 'symptom': bad['symptom'], 'diff': ','.join(_diff(bad))}
-            sig.update(WORLDS[sub].layout_of(init))
-            chk.violation(sig, {'sub': sub, 'init': init, 'actions': actions, **bad})
-    timing['replay'] = round(time.time() - t0, 1)
     traces = pool_map(_random_trace, targs)
     timing['record'] = round(time.time() - t0, 1)
-    futs = {}
     for m in SUBS:
+        chk.add_tlc(mcs[m].result())
+    timing['mc'] = round(time.time() - t0, 1)
+    futs = {}
+    for m in SUBS:     # validated by TLC while the replays run
         sel = [i for i, a in enumerate(targs) if a[0] == m]
         futs[m] = (sel, pool.submit(validate_traces, 'Trace_' + m, [traces[i] for i in sel], f'Trace_{m}.cfg',
                                     timeout=900))
+    for m, cfg, fut in gens:
+        r = fut.result()
+        if r.violated or not r.ok:
+            raise MachineryError(f'behaviour emission {cfg} failed: {r.violated or r.error}\n{r.out[-2000:]}')
+        chk.add_tlc(r)
+        behs = _parse_behaviours(r)
+        r.out = ''
+        if not behs:
+            raise MachineryError(f'{cfg} printed no behaviour')
+        items = _groups(m, behs, chk.seed)
+        chk.notes.setdefault('behaviours', {})[cfg] = {'tlc_behaviours': len(behs), 'action_sequences': len(items)}
+        chk.sample({cfg: behs[len(behs) // 2]}, limit=8)
+        del behs
+        _ITEMS[:] = items
+        res = pool_map(_replay_index, list(range(len(items))))
+        for item, bad in zip(items, res):
+            sub, variant, _, init, actions, _ = item
+            chk.impl_traces += 1
+            chk.case(f'{cfg}-{variant}', True)
+            if bad:
+                sig = {'module': sub, 'op': bad['action']['act'], 'symptom': bad['symptom'],
+                       'diff': ','.join(_diff(bad))}
+                sig.update(WORLDS[sub].layout_of(init))
+                chk.violation(sig, {'sub': sub, 'init': init, 'actions': actions, **bad})
+        del items[:], _ITEMS[:]
+    timing['gen+replay'] = round(time.time() - t0, 1)
     for m in SUBS:
         sel, fut = futs[m]
         verdicts, st, tr = fut.result()
